@@ -5,14 +5,23 @@ package compilex
 //   * calls occur only as statements / right-hand sides with side-effect
 //     free arguments (variable reads, constants, block literals), so the
 //     (undocumented) order of evaluation of arguments cannot matter;
-//   * arithmetic is on two simple operands, never `* 0` (the constant folder
-//     rewrites that, C30's business);
-//   * no `try` lexically inside a try body (the compiler rejects it);
+//   * arithmetic is + and - on two simple operands (`x * 0` is rewritten by
+//     the constant folder, C30's business);
+//   * no `try` lexically inside a try body (the compiler rejects it, also
+//     through nested blocks and function literals);
 //   * no `break`/`continue` outside a loop in a function (compile error);
 //   * names `it`, `unused`, `_x`, `this`, `super` are not used.
 // The reference interpreter additionally discards (and counts) runs that
 // leave the documented part dynamically (ordering of non-numbers, `return`
-// into a function that already returned, throw of a non-string, size bounds).
+// into a function that already returned, throw of a non-string, calling a
+// string, size bounds).
+//
+// The generator is biased towards programs that do something with their
+// blocks: a block/function literal is usually followed by calls of it with
+// the right number of arguments, reads prefer names that are probably
+// initialised and of the right kind, assignments inside blocks prefer
+// variables of enclosing scopes, and statements that end a scope early
+// (return / throw / break) are generated at the end of a branch only.
 
 import (
 	"fmt"
@@ -28,19 +37,44 @@ var loopNames = []string{"i", "j"}
 var allNames = []string{"a", "b", "c", "x", "y", "f", "g", "h", "i", "j", "e"}
 var throwStrs = []string{"e1", "e2", "x9"}
 
+const (
+	kInt   = 'i'
+	kBlock = 'b'
+	kStr   = 's'
+	kAny   = '?'
+)
+
+// sigT: what the generator knows about a block / function value
+type sigT struct {
+	pk       []byte // probable kind of each parameter (kInt / kBlock)
+	pa       []int  // for kBlock parameters: their arity
+	retBlock bool   // calls probably return a block ...
+	retArity int    // ... of this arity
+}
+
+func sigOfArity(n int) *sigT {
+	s := &sigT{}
+	for i := 0; i < n; i++ {
+		s.pk = append(s.pk, kInt)
+		s.pa = append(s.pa, 0)
+	}
+	return s
+}
+
 type lex struct {
 	s      *scope
 	parent *lex
-	init   map[string]bool
-	blocks map[string]int // name -> arity (-1 unknown)
+	kind   map[string]byte // names probably initialised here, with the probable kind of value
+	sig    map[string]*sigT // for kBlock: what is known about the block (nil = nothing)
+	open   map[string]bool // literals under construction (calling them unguarded recurses forever)
 	loop   int
 	inTry  bool
 	self   string // name the scope's literal is being assigned to ("" unknown)
-	depth  int    // block nesting depth
+	depth  int    // nesting depth of literals
 }
 
 func (lx *lex) child(s *scope, self string) *lex {
-	c := &lex{s: s, parent: lx, init: map[string]bool{}, blocks: map[string]int{}, self: self}
+	c := &lex{s: s, parent: lx, kind: map[string]byte{}, sig: map[string]*sigT{}, open: map[string]bool{}, self: self}
 	if lx != nil {
 		c.depth = lx.depth + 1
 		// the parser's "in try" flag is not reset by a nested function literal
@@ -48,24 +82,32 @@ func (lx *lex) child(s *scope, self string) *lex {
 	}
 	if s.isFunc {
 		c.parent = nil // nothing of the outside is visible in a function literal
-		if lx != nil {
-			c.depth = lx.depth + 1
-		}
 	}
-	for _, p := range s.params {
-		c.init[p] = true
+	for i, p := range s.params {
+		c.kind[p] = s.pk[i]
+		if s.pk[i] == kBlock {
+			c.sig[p] = sigOfArity(s.pa[i])
+		}
 	}
 	return c
 }
 
-func (lx *lex) visibleInit() []string {
+// visible returns the names that are probably initialised and whose probable
+// kind is one of kinds (inner scopes hide outer ones), sorted.
+func (lx *lex) visible(kinds string) []string {
 	seen := map[string]bool{}
 	var r []string
 	for l := lx; l != nil; l = l.parent {
 		for _, n := range allNames {
-			if l.init[n] && !seen[n] {
-				seen[n] = true
-				r = append(r, n)
+			k, ok := l.kind[n]
+			if !ok || seen[n] {
+				continue
+			}
+			seen[n] = true
+			for i := 0; i < len(kinds); i++ {
+				if kinds[i] == k {
+					r = append(r, n)
+				}
 			}
 		}
 	}
@@ -73,28 +115,48 @@ func (lx *lex) visibleInit() []string {
 	return r
 }
 
-func (lx *lex) visibleBlocks() []string {
-	seen := map[string]bool{}
-	var r []string
+func (lx *lex) isOpen(name string) bool {
 	for l := lx; l != nil; l = l.parent {
-		for _, n := range allNames {
-			if _, ok := l.blocks[n]; ok && !seen[n] {
-				seen[n] = true
-				r = append(r, n)
-			}
+		if l.open[name] {
+			return true
+		}
+		if _, ok := l.kind[name]; ok {
+			return false
 		}
 	}
-	sort.Strings(r)
-	return r
+	return false
 }
 
-func (lx *lex) arity(name string) int {
+// sigOf returns what is known about the block held by name (nil = nothing).
+func (lx *lex) sigOf(name string) *sigT {
 	for l := lx; l != nil; l = l.parent {
-		if a, ok := l.blocks[name]; ok {
-			return a
+		if _, ok := l.kind[name]; ok {
+			return l.sig[name]
 		}
 	}
-	return -1
+	return nil
+}
+
+func (lx *lex) set(name string, k byte, sig *sigT) {
+	lx.kind[name] = k
+	if k == kBlock && sig != nil {
+		lx.sig[name] = sig
+	} else {
+		delete(lx.sig, name)
+	}
+}
+
+// clobbers: assigning name here would overwrite a block of an enclosing scope
+func (lx *lex) clobbers(name string) bool {
+	if _, ok := lx.kind[name]; ok || lx.parent == nil {
+		return false
+	}
+	for _, v := range lx.parent.visible("b") {
+		if v == name {
+			return true
+		}
+	}
+	return false
 }
 
 type pgen struct {
@@ -106,317 +168,603 @@ type pgen struct {
 
 func (g *pgen) lab(s string) string { g.n++; return fmt.Sprintf("%s%d", s, g.n) }
 
-func (g *pgen) uni(n int) int         { return gen.Uniform(g.t, g.lab("u"), n) }
-func (g *pgen) chance(pct int) bool   { return gen.Chance(g.t, g.lab("c"), pct) }
-func (g *pgen) weighted(w []int) int  { return gen.Weighted(g.t, g.lab("w"), w) }
+func (g *pgen) uni(n int) int           { return gen.Uniform(g.t, g.lab("u"), n) }
+func (g *pgen) chance(pct int) bool     { return gen.Chance(g.t, g.lab("c"), pct) }
+func (g *pgen) weighted(w []int) int    { return gen.Weighted(g.t, g.lab("w"), w) }
 func (g *pgen) pick(xs []string) string { return xs[g.uni(len(xs))] }
+
+// rare: about 1 in 500 (a program has dozens of reads; a read of a random
+// name usually ends the run with "uninitialized variable")
+func (g *pgen) rare() bool { return gen.Uniform(g.t, g.lab("r"), 500) == 0 }
 
 func (g *pgen) smallInt() int64 {
 	return int64(rapid.IntRange(-3, 9).Draw(g.t, g.lab("k")))
 }
 
-// readName picks a name to read: mostly one that is probably initialised.
-func (g *pgen) readName(lx *lex) string {
-	vi := lx.visibleInit()
-	if len(vi) > 0 && g.chance(80) {
-		return g.pick(vi)
+// readInt picks a name to read where a number is wanted ("" = none suitable).
+// Rarely (2%) any name at all: errors are legitimate results but end the run.
+func (g *pgen) readInt(lx *lex) string {
+	if g.rare() {
+		return g.pick(allNames)
 	}
-	return g.pick(allNames)
+	if v := lx.visible("i"); len(v) > 0 && g.chance(85) {
+		return g.pick(v)
+	}
+	if v := lx.visible("i?"); len(v) > 0 && g.chance(90) {
+		return g.pick(v)
+	}
+	if v := lx.visible("i?bs"); len(v) > 0 && g.chance(50) {
+		return g.pick(v)
+	}
+	return ""
 }
 
-func (g *pgen) dataName(lx *lex) string {
-	if g.chance(85) {
-		return g.pick(dataNames)
+// readAny picks a name to read where any value will do ("" = none).
+func (g *pgen) readAny(lx *lex) string {
+	if g.rare() {
+		return g.pick(allNames)
 	}
-	return g.pick(allNames)
+	if v := lx.visible("i?bs"); len(v) > 0 {
+		return g.pick(v)
+	}
+	return ""
+}
+
+// varOr returns a read of name, or a constant if there is no name.
+func (g *pgen) varOr(name string) expr {
+	if name == "" {
+		return &eInt{g.smallInt()}
+	}
+	return &eVar{name}
+}
+
+// intTarget picks the name an assignment of a number goes to: often a
+// variable of an enclosing scope (that is what makes variables shared).
+func (g *pgen) intTarget(lx *lex) string {
+	if v := lx.visible("i?"); len(v) > 0 && g.chance(55) {
+		return g.pick(v)
+	}
+	return g.pick(dataNames)
 }
 
 func (g *pgen) simpleOperand(lx *lex) expr {
 	if g.chance(60) {
-		return &eVar{g.readName(lx)}
+		return g.varOr(g.readInt(lx))
 	}
 	return &eInt{g.smallInt()}
 }
 
 func (g *pgen) arith(lx *lex) expr {
-	op := g.pick([]string{"+", "-", "*"})
+	// no `*`: `x * 0` (also with a propagated constant 0) is folded to 0
+	// without evaluating x, which is C30's business (known finding there)
+	op := g.pick([]string{"+", "-"})
 	l, r := g.simpleOperand(lx), g.simpleOperand(lx)
-	if op == "*" {
-		// never multiply by a literal 0 (folded away by the compiler)
-		if k, ok := l.(*eInt); ok && k.v == 0 {
-			k.v = 2
-		}
-		if k, ok := r.(*eInt); ok && k.v == 0 {
-			k.v = 3
-		}
-	}
 	return &eBin{op: op, l: l, r: r}
 }
 
 func (g *pgen) cond(lx *lex) *eCmp {
-	switch g.weighted([]int{50, 25, 25}) {
+	switch g.weighted([]int{60, 25, 15}) {
 	case 0:
-		return &eCmp{op: g.pick([]string{"<", "<=", ">", ">="}), l: &eVar{g.readName(lx)}, r: &eInt{g.smallInt()}}
+		return &eCmp{op: g.pick([]string{"<", "<=", ">", ">="}), l: g.varOr(g.readInt(lx)), r: &eInt{g.smallInt()}}
 	case 1:
-		return &eCmp{op: g.pick([]string{"is", "isnt"}), l: &eVar{g.readName(lx)}, r: g.simpleOperand(lx)}
+		return &eCmp{op: g.pick([]string{"is", "isnt"}), l: g.varOr(g.readAny(lx)), r: g.simpleOperand(lx)}
 	default:
-		return &eCmp{op: g.pick([]string{"is", "isnt"}), l: &eVar{g.readName(lx)}, r: &eStr{g.pick(throwStrs)}}
+		l := g.readAny(lx)
+		if v := lx.visible("s"); len(v) > 0 {
+			l = g.pick(v)
+		}
+		return &eCmp{op: g.pick([]string{"is", "isnt"}), l: g.varOr(l), r: &eStr{g.pick(throwStrs)}}
 	}
 }
 
-func (g *pgen) params() []string {
+// params draws 0..2 distinct parameter names and what the body will use
+// them as: a number (mostly) or a block of some arity.
+func (g *pgen) params(s *scope) {
 	n := g.weighted([]int{35, 40, 25})
-	pool := append([]string{}, dataNames...)
-	pool = append(pool, "f", "i")
-	var ps []string
-	for len(ps) < n {
+	for len(s.params) < n {
+		blk := g.chance(22)
+		pool := dataNames
+		if blk {
+			pool = []string{"f", "g", "h", "x"}
+		} else if g.chance(10) {
+			pool = []string{"i", "f"}
+		}
 		p := g.pick(pool)
 		dup := false
-		for _, q := range ps {
+		for _, q := range s.params {
 			dup = dup || q == p
 		}
-		if !dup {
-			ps = append(ps, p)
+		if dup {
+			continue
+		}
+		s.params = append(s.params, p)
+		if blk {
+			s.pk = append(s.pk, kBlock)
+			s.pa = append(s.pa, g.weighted([]int{55, 45}))
+		} else {
+			s.pk = append(s.pk, kInt)
+			s.pa = append(s.pa, 0)
 		}
 	}
-	return ps
+}
+
+func (s *scope) sig() *sigT {
+	return &sigT{pk: s.pk, pa: s.pa, retBlock: s.retBlock, retArity: s.retArity}
 }
 
 func (g *pgen) newScope(lx *lex, isFunc bool, self string) *scope {
 	g.nscope++
-	s := &scope{id: g.nscope, isFunc: isFunc, params: g.params()}
-	c := lx.child(s, self)
-	n := 1 + g.uni(5)
-	s.body = g.stmts(c, n)
-	s.final = g.final(c)
+	s := &scope{id: g.nscope, isFunc: isFunc}
+	g.params(s)
+	g.fillScope(lx, s, self)
 	return s
+}
+
+// fillScope generates body and final expression of s (parameters are set).
+func (g *pgen) fillScope(lx *lex, s *scope, self string) {
+	c := lx.child(s, self)
+	// a literal gets a share of the remaining statement budget only, so that
+	// the enclosing scope can still use (call) it afterwards
+	old := g.budget
+	sub := 2 + g.uni(5)
+	if c.depth >= 2 {
+		sub = 1 + g.uni(3)
+	}
+	if sub > old-2 {
+		sub = old - 2
+	}
+	if sub < 1 {
+		sub = 1
+	}
+	g.budget = sub
+	s.body = g.stmts(c, sub, false)
+	s.final = g.final(c)
+	g.budget = old - (sub - g.budget)
 }
 
 func (g *pgen) blockLit(lx *lex, self string) *eBlock {
 	return &eBlock{g.newScope(lx, false, self)}
 }
 
-func (g *pgen) callExpr(lx *lex) *eCall {
-	vb := lx.visibleBlocks()
-	var fn string
-	if len(vb) > 0 && g.chance(88) {
-		fn = g.pick(vb)
-	} else {
-		fn = g.pick(allNames)
+// callee picks the name to call ("" = nothing sensible to call).
+func (g *pgen) callee(lx *lex) string {
+	var cand []string
+	for _, n := range lx.visible("b") {
+		if !lx.isOpen(n) {
+			cand = append(cand, n)
+		}
 	}
-	ar := lx.arity(fn)
-	n := ar
-	if ar < 0 || g.chance(8) {
-		n = g.uni(3)
+	if g.rare() {
+		if n := g.pick(allNames); !lx.isOpen(n) {
+			return n
+		}
 	}
+	if v := lx.visible("?"); len(v) > 0 && g.chance(3) {
+		return g.pick(v)
+	}
+	if len(cand) > 0 {
+		return g.pick(cand)
+	}
+	return ""
+}
+
+// blockArg makes an argument for a parameter that the callee calls with
+// `arity` arguments: a visible block of that arity or a new literal.
+func (g *pgen) blockArg(lx *lex, arity int) expr {
+	var cand []string
+	for _, n := range lx.visible("b") {
+		if sg := lx.sigOf(n); sg != nil && len(sg.pk) == arity && !lx.isOpen(n) {
+			cand = append(cand, n)
+		}
+	}
+	if len(cand) > 0 && (g.chance(45) || lx.depth >= 3 || g.budget < 3) {
+		return &eVar{g.pick(cand)}
+	}
+	if lx.depth >= 4 {
+		return &eInt{g.smallInt()}
+	}
+	// literal with exactly `arity` number parameters
+	g.nscope++
+	s := &scope{id: g.nscope}
+	for len(s.params) < arity {
+		p := g.pick(dataNames)
+		if len(s.params) == 1 && s.params[0] == p {
+			continue
+		}
+		s.params = append(s.params, p)
+		s.pk = append(s.pk, kInt)
+		s.pa = append(s.pa, 0)
+	}
+	g.fillScope(lx, s, "")
+	return &eBlock{s}
+}
+
+func (g *pgen) callOf(lx *lex, fn string) *eCall {
+	sg := lx.sigOf(fn)
 	c := &eCall{fn: fn}
-	for k := 0; k < n; k++ {
-		switch w := g.weighted([]int{45, 40, 15}); {
-		case w == 0:
-			c.args = append(c.args, &eVar{g.readName(lx)})
-		case w == 1 || lx.depth >= 3 || g.budget < 3:
-			c.args = append(c.args, &eInt{g.smallInt()})
+	if sg == nil {
+		n := g.weighted([]int{60, 30, 10})
+		for k := 0; k < n; k++ {
+			c.args = append(c.args, g.simpleOperand(lx))
+		}
+		return c
+	}
+	for k := range sg.pk {
+		switch {
+		case sg.pk[k] == kBlock:
+			c.args = append(c.args, g.blockArg(lx, sg.pa[k]))
+		case g.chance(6):
+			c.args = append(c.args, g.varOr(g.readAny(lx)))
 		default:
-			c.args = append(c.args, g.blockLit(lx, ""))
+			c.args = append(c.args, g.simpleOperand(lx))
+		}
+	}
+	if g.chance(3) {
+		// wrong number of arguments
+		if len(c.args) > 0 && g.chance(50) {
+			c.args = c.args[:len(c.args)-1]
+		} else {
+			c.args = append(c.args, &eInt{g.smallInt()})
 		}
 	}
 	return c
 }
 
 func (g *pgen) final(lx *lex) expr {
-	switch g.weighted([]int{50, 12, 15, 23}) {
+	switch g.weighted([]int{30, 10, 15, 20, 25}) {
 	case 0:
-		return &eVar{g.readName(lx)}
+		return g.varOr(g.readInt(lx))
 	case 1:
 		return &eInt{g.smallInt()}
 	case 2:
 		return g.arith(lx)
-	default:
-		if len(lx.visibleBlocks()) > 0 {
-			return g.callExpr(lx)
+	case 3:
+		// return a block (closures that outlive the call)
+		if v := lx.visible("b"); len(v) > 0 {
+			n := g.pick(v)
+			if sg := lx.sigOf(n); sg != nil {
+				lx.s.retBlock, lx.s.retArity = true, len(sg.pk)
+			}
+			return &eVar{n}
 		}
-		return &eVar{g.readName(lx)}
+		return g.varOr(g.readAny(lx))
+	default:
+		if fn := g.callee(lx); fn != "" {
+			return g.callOf(lx, fn)
+		}
+		return g.varOr(g.readInt(lx))
 	}
 }
 
-func (g *pgen) stmts(lx *lex, n int) []stmt {
-	var r []stmt
+// stmts generates n statement groups. branch: the list is the body of an
+// if / loop / try / catch (a statement that ends it early may come last).
+func (g *pgen) stmts(lx *lex, n int, branch bool) []stmt {
+	var saveK map[string]byte
+	var saveS map[string]*sigT
+	if branch {
+		// what a branch assigns is not definitely assigned afterwards
+		saveK, saveS = map[string]byte{}, map[string]*sigT{}
+		for k, v := range lx.kind {
+			saveK[k] = v
+		}
+		for k, v := range lx.sig {
+			saveS[k] = v
+		}
+	}
+	r := []stmt{}
 	for k := 0; k < n && g.budget > 0; k++ {
-		r = append(r, g.stmt(lx))
+		r = append(r, g.stmt(lx, branch && k == n-1)...)
+	}
+	if branch {
+		lx.kind, lx.sig = saveK, saveS
 	}
 	return r
 }
 
-func (g *pgen) stmt(lx *lex) stmt {
+// callStmt makes `fn(args)` or `x = fn(args)`.
+func (g *pgen) callStmt(lx *lex, fn string) stmt {
+	c := g.callOf(lx, fn)
+	if sg := lx.sigOf(fn); sg != nil && sg.retBlock && g.chance(85) {
+		// keep the returned block in a variable so that it gets called
+		name := g.pick(blkNames)
+		if name != fn && !lx.isOpen(name) && !lx.clobbers(name) {
+			lx.set(name, kBlock, sigOfArity(sg.retArity))
+			return &sAssign{name, c}
+		}
+	}
+	if g.chance(60) {
+		var name string
+		if g.chance(20) {
+			name = g.pick(blkNames)
+			if lx.isOpen(name) || name == fn || lx.clobbers(name) {
+				name = g.pick(dataNames)
+			}
+		} else {
+			name = g.intTarget(lx)
+		}
+		if name == fn || lx.isOpen(name) {
+			return &sCall{c}
+		}
+		lx.set(name, kAny, nil)
+		return &sAssign{name, c}
+	}
+	return &sCall{c}
+}
+
+func (g *pgen) terminator(lx *lex) stmt {
+	w := []int{35, 40, 25}
+	if lx.loop == 0 && lx.s.isFunc {
+		w[2] = 0
+	}
+	switch g.weighted(w) {
+	case 0:
+		if g.chance(60) {
+			return &sReturn{g.simpleOperand(lx)}
+		}
+		return &sReturn{g.arith(lx)}
+	case 1:
+		if v := lx.visible("s"); len(v) > 0 && g.chance(30) {
+			return &sThrow{&eVar{g.pick(v)}}
+		}
+		return &sThrow{&eStr{g.pick(throwStrs)}}
+	default:
+		if g.chance(60) {
+			return &sBreak{inLoop: lx.loop > 0}
+		}
+		return &sContinue{inLoop: lx.loop > 0}
+	}
+}
+
+func (g *pgen) stmt(lx *lex, mayEnd bool) []stmt {
 	g.budget--
 	canNest := lx.depth < 4 && g.budget >= 2
 	w := []int{
-		20, // 0 assign simple/arith
-		14, // 1 assign block literal
-		3,  // 2 assign function literal
-		20, // 3 call / assign call
+		12, // 0 assign number
+		26, // 1 assign block literal (+ calls)
+		5,  // 2 assign function literal (+ calls)
+		22, // 3 call / assign call
 		8,  // 4 op-assign / incr
-		7,  // 5 if
+		6,  // 5 if
 		5,  // 6 for
 		2,  // 7 while
-		6,  // 8 try
-		6,  // 9 probe
-		3,  // 10 return
-		3,  // 11 throw
-		3,  // 12 break/continue
-		4,  // 13 recursion template
+		5,  // 8 try
+		5,  // 9 probe
+		5,  // 10 return / throw / break / continue
+		6,  // 11 recursion template
+		2,  // 12 copy any value
 	}
 	if !canNest {
 		w[1], w[2], w[5], w[6], w[7], w[8] = 0, 0, 0, 0, 0, 0
 	}
-	if lx.depth >= 3 {
+	w[1] >>= uint(lx.depth) // fewer literals the deeper we are
+	if lx.depth >= 2 {
 		w[2] = 0
 	}
 	if lx.inTry {
 		w[8], w[9] = 0, 0
 	}
-	if lx.loop == 0 && lx.s.isFunc {
-		w[12] = 0
-	}
-	if lx.self == "" || len(lx.s.params) == 0 || lx.s.isFunc || !canNest {
-		w[13] = 0
-	}
-	if len(lx.visibleBlocks()) == 0 {
-		w[3] = 4
+	if lx.self == "" || len(lx.s.params) == 0 || !canNest || lx.s.isFunc || lx.s.pk[0] != kInt {
+		w[11] = 0
 	}
 	switch g.weighted(w) {
 	case 0:
-		name := g.dataName(lx)
+		name := g.intTarget(lx)
 		var e expr
-		switch g.weighted([]int{40, 25, 35}) {
+		switch g.weighted([]int{30, 20, 50}) {
 		case 0:
 			e = &eInt{g.smallInt()}
 		case 1:
-			e = &eVar{g.readName(lx)}
+			e = g.varOr(g.readInt(lx))
 		default:
 			e = g.arith(lx)
 		}
-		lx.init[name] = true
-		delete(lx.blocks, name)
-		return &sAssign{name, e}
-	case 1:
-		name := g.pick(blkNames)
-		if g.chance(12) {
+		if lx.isOpen(name) {
 			name = g.pick(dataNames)
 		}
-		// register before generating the body so that it can call itself
-		lx.blocks[name] = -1
-		b := g.blockLit(lx, name)
-		lx.blocks[name] = len(b.s.params)
-		lx.init[name] = true
-		return &sAssign{name, b}
-	case 2:
+		lx.set(name, kInt, nil)
+		return []stmt{&sAssign{name, e}}
+	case 1, 2:
 		name := g.pick(blkNames)
-		f := &eFunc{g.newScope(lx, true, "")}
-		lx.blocks[name] = len(f.s.params)
-		lx.init[name] = true
-		return &sAssign{name, f}
-	case 3:
-		c := g.callExpr(lx)
-		if g.chance(55) {
-			name := g.dataName(lx)
-			if g.chance(25) {
-				name = g.pick(blkNames)
-				lx.blocks[name] = -1
+		if g.chance(10) {
+			name = g.pick(dataNames)
+		}
+		for try := 0; try < 4 && lx.clobbers(name) && g.chance(85); try++ {
+			name = g.pick(allNames[:8])
+		}
+		if lx.isOpen(name) {
+			name = g.pick(dataNames)
+		}
+		var lit expr
+		var sc *scope
+		lx.open[name] = true
+		// for the literal's body the name is (going to be) a block
+		oldK, had := lx.kind[name]
+		oldS := lx.sig[name]
+		lx.set(name, kBlock, nil)
+		if w[2] > 0 && g.chance(20) {
+			sc = g.newScope(lx, true, name)
+			lit = &eFunc{sc}
+		} else {
+			b := g.blockLit(lx, name)
+			sc = b.s
+			lit = b
+		}
+		delete(lx.open, name)
+		if had {
+			lx.set(name, oldK, oldS)
+		} else {
+			delete(lx.kind, name)
+		}
+		lx.set(name, kBlock, sc.sig())
+		r := []stmt{&sAssign{name, lit}}
+		if g.chance(88) {
+			nc := 1 + g.weighted([]int{55, 35, 10})
+			for k := 0; k < nc; k++ {
+				g.budget--
+				if _, ok := lx.kind[name]; !ok || lx.kind[name] != kBlock {
+					break
+				}
+				r = append(r, g.callStmt(lx, name))
 			}
-			lx.init[name] = true
-			return &sAssign{name, c}
 		}
-		return &sCall{c}
+		return r
+	case 3:
+		fn := g.callee(lx)
+		if fn == "" {
+			name := g.intTarget(lx)
+			e := g.arith(lx)
+			lx.set(name, kInt, nil)
+			return []stmt{&sAssign{name, e}}
+		}
+		return []stmt{g.callStmt(lx, fn)}
 	case 4:
-		name := g.readName(lx)
-		if g.chance(50) {
-			return &sOpAssign{name: name, op: g.pick([]string{"+=", "-="}), e: g.simpleOperand(lx)}
+		name := g.readInt(lx)
+		if name == "" {
+			name = g.pick(dataNames)
+			lx.set(name, kInt, nil)
+			return []stmt{&sAssign{name, &eInt{g.smallInt()}}}
 		}
-		return &sIncr{name: name, pre: g.chance(50), dec: g.chance(30)}
+		if g.chance(50) {
+			return []stmt{&sOpAssign{name: name, op: g.pick([]string{"+=", "-="}), e: g.simpleOperand(lx)}}
+		}
+		return []stmt{&sIncr{name: name, pre: g.chance(50), dec: g.chance(30)}}
 	case 5:
 		st := &sIf{cond: g.cond(lx)}
-		st.then = g.stmts(lx, 1+g.uni(2))
+		st.then = g.stmts(lx, 1+g.uni(2), true)
 		if g.chance(40) {
-			st.els = g.stmts(lx, 1+g.uni(2))
-			if st.els == nil {
-				st.els = []stmt{}
-			}
+			st.els = g.stmts(lx, 1+g.uni(2), true)
 		}
-		return st
+		return []stmt{st}
 	case 6:
 		v := g.pick(loopNames)
 		if g.chance(15) {
 			v = g.pick(dataNames)
 		}
-		st := &sFor{v: v, k: int64(1 + g.uni(3))}
-		lx.init[v] = true
-		lx.loop++
-		st.body = g.stmts(lx, 1+g.uni(3))
-		lx.loop--
-		return st
-	case 7:
-		vi := lx.visibleInit()
-		v := "a"
-		if len(vi) > 0 {
-			v = g.pick(vi)
+		if lx.isOpen(v) {
+			v = "j"
 		}
+		st := &sFor{v: v, k: int64(1 + g.uni(3))}
+		lx.set(v, kInt, nil)
+		lx.loop++
+		st.body = g.stmts(lx, 1+g.uni(3), true)
+		lx.loop--
+		lx.set(v, kInt, nil)
+		return []stmt{st}
+	case 7:
+		vi := lx.visible("i")
+		if len(vi) == 0 {
+			name := g.intTarget(lx)
+			lx.set(name, kInt, nil)
+			return []stmt{&sAssign{name, &eInt{g.smallInt()}}}
+		}
+		v := g.pick(vi)
 		st := &sWhile{cond: &eCmp{op: "<", l: &eVar{v}, r: &eInt{int64(1 + g.uni(4))}}}
 		lx.loop++
-		st.body = g.stmts(lx, 1+g.uni(2))
+		st.body = g.stmts(lx, 1+g.uni(2), true)
 		lx.loop--
+		if n := len(st.body); n > 0 {
+			switch st.body[n-1].(type) {
+			case *sReturn, *sThrow, *sBreak, *sContinue:
+				// keep the increment reachable
+				st.body[n-1] = &sIf{cond: g.cond(lx), then: []stmt{st.body[n-1]}}
+			}
+		}
 		st.body = append(st.body, &sIncr{name: v, pre: true})
-		return st
+		return []stmt{st}
 	case 8:
 		st := &sTry{hasCatch: g.chance(85)}
 		lx.inTry = true
-		st.body = g.stmts(lx, 1+g.uni(3))
+		st.body = g.stmts(lx, 1+g.uni(3), true)
 		lx.inTry = false
 		if st.hasCatch {
 			if g.chance(70) {
 				st.catchVar = "e"
 				st.pat = []string{"", "", "", "", "", "", "e1", "e", "block:", "uninit"}[g.uni(10)]
-				lx.init["e"] = true
 			}
-			st.catchBody = g.stmts(lx, g.uni(3))
+			oldK, had := lx.kind["e"]
+			if st.catchVar != "" {
+				lx.set("e", kStr, nil)
+			}
+			st.catchBody = g.stmts(lx, g.uni(3), true)
+			if st.catchVar != "" {
+				// e is set only if something was caught
+				if had {
+					lx.kind["e"] = oldK
+				} else {
+					delete(lx.kind, "e")
+				}
+			}
 		}
-		return st
+		return []stmt{st}
 	case 9:
+		// try { d = src } catch { d = -1 }: observes whether src is initialised
 		d := g.pick(dataNames)
+		if lx.isOpen(d) {
+			d = "y"
+		}
 		src := g.pick(allNames)
-		lx.init[d] = true
-		return &sTry{body: []stmt{&sAssign{d, &eVar{src}}}, hasCatch: true,
-			catchBody: []stmt{&sAssign{d, &eInt{-1}}}}
+		if g.chance(50) {
+			src = g.pick(dataNames)
+		}
+		lx.set(d, kAny, nil)
+		return []stmt{&sTry{body: []stmt{&sAssign{d, &eVar{src}}}, hasCatch: true,
+			catchBody: []stmt{&sAssign{d, &eInt{-1}}}}}
 	case 10:
-		var e expr
-		if g.chance(60) {
-			e = g.simpleOperand(lx)
-		} else {
-			e = g.arith(lx)
+		term := g.terminator(lx)
+		if mayEnd {
+			return []stmt{term}
 		}
-		return &sReturn{e}
+		// not at the end of a branch: make it conditional (and not too likely)
+		c := g.cond(lx)
+		if g.chance(60) {
+			c = &eCmp{op: "is", l: g.varOr(g.readInt(lx)), r: &eInt{g.smallInt()}}
+		}
+		return []stmt{&sIf{cond: c, then: []stmt{term}}}
 	case 11:
-		if lx.init["e"] && g.chance(25) {
-			return &sThrow{&eVar{"e"}}
-		}
-		return &sThrow{&eStr{g.pick(throwStrs)}}
-	case 12:
-		if g.chance(60) {
-			return &sBreak{inLoop: lx.loop > 0}
-		}
-		return &sContinue{inLoop: lx.loop > 0}
-	case 13:
 		// if (p > 0) { t = (p - 1); r = self(t, consts...) }
 		p := lx.s.params[0]
 		t := g.pick(dataNames)
+		if lx.isOpen(t) {
+			t = p
+		}
 		c := &eCall{fn: lx.self, args: []expr{&eVar{t}}}
 		for k := 1; k < len(lx.s.params); k++ {
-			c.args = append(c.args, &eInt{g.smallInt()})
+			if lx.s.pk[k] == kBlock {
+				c.args = append(c.args, &eVar{lx.s.params[k]})
+			} else {
+				c.args = append(c.args, &eInt{g.smallInt()})
+			}
 		}
-		r := g.dataName(lx)
-		lx.init[r] = true
-		return &sIf{cond: &eCmp{op: ">", l: &eVar{p}, r: &eInt{0}},
-			then: []stmt{&sAssign{t, &eBin{op: "-", l: &eVar{p}, r: &eInt{1}}}, &sAssign{r, c}}}
+		r := g.intTarget(lx)
+		if lx.isOpen(r) {
+			r = t
+		}
+		lx.set(t, kInt, nil)
+		lx.set(r, kAny, nil)
+		return []stmt{&sIf{cond: &eCmp{op: ">", l: &eVar{p}, r: &eInt{0}},
+			then: []stmt{&sAssign{t, &eBin{op: "-", l: &eVar{p}, r: &eInt{1}}}, &sAssign{r, c}}}}
+	case 12:
+		name := g.pick(allNames[:8])
+		src := g.readAny(lx)
+		if src == "" {
+			lx.set("y", kInt, nil)
+			return []stmt{&sAssign{"y", &eInt{g.smallInt()}}}
+		}
+		if lx.isOpen(name) || lx.isOpen(src) {
+			name = "y"
+		}
+		k := byte(kAny)
+		for l := lx; l != nil; l = l.parent {
+			if kk, ok := l.kind[src]; ok {
+				k = kk
+				break
+			}
+		}
+		if lx.clobbers(name) {
+			name = "y"
+		}
+		lx.set(name, k, lx.sigOf(src))
+		return []stmt{&sAssign{name, &eVar{src}}}
 	}
 	panic("stmt")
 }
@@ -427,18 +775,21 @@ func genProgram(t *rapid.T) *scope {
 	g.nscope++
 	root := &scope{id: g.nscope, isFunc: true}
 	lx := (*lex)(nil).child(root, "")
-	lx.depth = 0
 	// usually start with a few initialised variables so that blocks share them
 	if g.chance(85) {
 		n := 1 + g.uni(3)
 		for k := 0; k < n; k++ {
 			name := g.pick(dataNames)
-			root.body = append(root.body, &sAssign{name, &eInt{g.smallInt()}})
-			lx.init[name] = true
-			g.budget--
+			var e expr = &eInt{g.smallInt()}
+			if g.chance(50) {
+				// not a constant: keeps the variable out of constant propagation
+				e = &eBin{op: "+", l: &eInt{g.smallInt()}, r: &eInt{g.smallInt()}}
+			}
+			root.body = append(root.body, &sAssign{name, e})
+			lx.set(name, kInt, nil)
 		}
 	}
-	root.body = append(root.body, g.stmts(lx, 3+g.uni(8))...)
+	root.body = append(root.body, g.stmts(lx, 3+g.uni(7), false)...)
 	var names []string
 	seen := map[string]bool{}
 	for _, st := range root.body {
